@@ -450,4 +450,66 @@ def TracedObj.run {ν : Type} (o : TracedObj ν) : List (TraceOp ν) → TracedO
   | [] => o
   | op :: ops => TracedObj.run (o.step op) ops
 
+/-! ## 8. data copied from the scico sources — pinned to the source by `Scico.Generated.CacheTables` (regenerated on every run) -/
+
+/-- how each `*_kwargs` constructor parameter is stored and the literal defaults (value = source text): what `OptPattern` and
+    the option tie assume per class -/
+def codeOptionTables : List (String × String × String × List (String × String)) := [
+  ("GenericSubproblemSolver", "minimize_kwargs", "byRef", [("options", "{'maxiter': 100}")]),
+  ("LinearSubproblemSolver", "cg_kwargs", "copyUpdate", [("tol", "0.0001"), ("maxiter", "100")]),
+  ("MatrixSubproblemSolver", "solve_kwargs", "copyUpdate", [("cho_factor", "False")]),
+  ("SquaredL2Loss", "prox_kwargs", "copyUpdate", [("maxiter", "100"), ("tol", "1e-05")])
+]
+
+/-- the functions this file follows line by line, as normalised source (`ast.unparse`, docstrings and comments dropped).
+    `query` ↔ the `if` of `TVNorm.__call__/prox`; `Heap.mul/div/setScale` ↔ `Loss.__mul__/__truediv__/set_scale`; `Heap.new/grad` ↔
+    `Functional.__init__/grad`; `World.construct` ↔ the two `internal_init`; `rngCall` ↔ `_add_seed.fun_alt`; `LinOpState.jit/needAdj/
+    needGram` ↔ `LinearOperator.jit/_set_adjoint/_set_gram`. -/
+def codeSources : List (String × List String) := [
+  ("TVNorm.__call__", ["if self.G is None or self.G.shape[1] != x.shape or self.G.input_dtype != x.dtype:", "    with jax.ensure_compile_time_eval():", "        self.G = self._call_operator(x.shape, x.dtype)", "return self.norm(self.G @ x)"]),
+  ("TVNorm.prox", ["if self.WP is None or self.WP.shape[1] != v.shape or self.WP.input_dtype != v.dtype:", "    with jax.ensure_compile_time_eval():", "        self.WP, self.CWT, self.prox_ndims, self.prox_slice = self._prox_operators(v.shape, v.dtype)", "assert self.prox_ndims is not None", "assert self.prox_slice is not None", "K = 2 * self.prox_ndims", "u = TVNorm._prox_core(self.WP, self.CWT, self.norm, K, TVNorm._slice_tuple_to_tuple(self.prox_slice), v, lam)", "return u"]),
+  ("Loss.__mul__", ["new_loss = copy(self)", "new_loss._grad = scico.grad(new_loss.__call__)", "new_loss.set_scale(self.scale * other)", "return new_loss"]),
+  ("Loss.__truediv__", ["new_loss = copy(self)", "new_loss._grad = scico.grad(new_loss.__call__)", "new_loss.set_scale(self.scale / other)", "return new_loss"]),
+  ("Loss.set_scale", ["self.scale = new_scale"]),
+  ("Functional.__init__", ["self._grad = scico.grad(self.__call__)"]),
+  ("Functional.grad", ["return self._grad(x)"]),
+  ("SubproblemSolver.internal_init", ["self.admm = admm"]),
+  ("PGMStepSize.internal_init", ["self.pgm = pgm"]),
+  ("_add_seed.fun_alt", ["if len(args) >= num_params:", "    key = args[num_params - 1]", "if len(args) > num_params:", "    seed = args[num_params]", "if key is not None and seed is not None:", "    raise ValueError('Key and seed cannot both be specified.')", "if key is None:", "    if seed is None:", "        seed = 0", "    key = jax.random.PRNGKey(seed)", "result = fun(key, *args[:num_params - 1], **kwargs)", "key, subkey = jax.random.split(key, 2)", "return (result, key)"]),
+  ("LinearOperator.jit", ["if self._adj is None:", "    self._set_adjoint()", "if self._gram is None:", "    self._set_gram()", "self._eval = jax.jit(self._eval)", "self._adj = jax.jit(self._adj)", "self._gram = jax.jit(self._gram)"]),
+  ("LinearOperator._set_adjoint", ["with jax.ensure_compile_time_eval():", "    adj_fun = linear_adjoint(self.__call__, snp.zeros(self.input_shape, dtype=self.input_dtype))", "self._adj = lambda x: adj_fun(x)[0]"]),
+  ("LinearOperator._set_gram", ["self._gram = lambda x: self.adj(self(x))"]),
+  ("Operator.jit", ["self._eval = jax.jit(self._eval)"])
+]
+
+/-- which classes of `scico/linop` (and the operators of `functional/_tvnorm.py`) define the members the jit-slot model (§6) talks
+    about, and which hand an `adj_fn` to the base-class constructor.  `_adj` defined ⇒ variant `classAdj`; `adj_fn` passed ⇒ `adjFn`;
+    neither ⇒ `plain`; a class that defines `adj` / `gram` / `jit` itself (only `MatrixOperator`) is OUTSIDE `C19_jit_slots`. -/
+def codeSlotOverrides : List (String × String × List String × Bool) := [
+  ("scico/functional/_tvnorm.py", "SingleAxisFiniteSum", ["_eval"], false),
+  ("scico/linop/_circconv.py", "CircularConvolve", ["_eval", "_adj"], false),
+  ("scico/linop/_convolve.py", "Convolve", ["_eval"], false),
+  ("scico/linop/_convolve.py", "ConvolveByX", ["_eval"], false),
+  ("scico/linop/_dft.py", "DFT", ["_eval"], false),
+  ("scico/linop/_diag.py", "Diagonal", ["_eval", "gram_op", "T", "H"], false),
+  ("scico/linop/_diag.py", "Identity", ["_eval", "gram_op"], false),
+  ("scico/linop/_diag.py", "ScaledIdentity", ["gram_op"], false),
+  ("scico/linop/_diff.py", "SingleAxisFiniteDifference", ["_eval"], false),
+  ("scico/linop/_func.py", "Slice", ["_eval"], false),
+  ("scico/linop/_grad.py", "ProjectedGradient", ["_eval"], false),
+  ("scico/linop/_linop.py", "ComposedLinearOperator", [], true),
+  ("scico/linop/_linop.py", "LinearOperator", ["adj", "gram", "gram_op", "T", "H", "jit", "_set_adjoint", "_set_gram"], false),
+  ("scico/linop/_matrix.py", "MatrixOperator", ["_eval", "adj", "gram", "gram_op", "T", "H"], false),
+  ("scico/linop/_stack.py", "DiagonalStack", ["_adj"], false),
+  ("scico/linop/_stack.py", "VerticalStack", ["_adj"], false),
+  ("scico/linop/abel.py", "AbelTransform", ["_eval", "_adj"], true),
+  ("scico/linop/optics.py", "FraunhoferPropagator", ["_eval"], false),
+  ("scico/linop/optics.py", "Propagator", ["_eval"], true),
+  ("scico/linop/xray/_xray.py", "XRayTransform2D", [], true),
+  ("scico/linop/xray/_xray.py", "XRayTransform3D", [], true),
+  ("scico/linop/xray/astra.py", "XRayTransform2D", [], true),
+  ("scico/linop/xray/astra.py", "XRayTransform3D", [], true),
+  ("scico/linop/xray/svmbir.py", "XRayTransform", [], true)
+]
+
 end Scico.Cache
